@@ -176,7 +176,7 @@ def shard(S, p):
                    "[C call set %s/%d: %d samples, %d records] configuration %s gave rc %s stdout %r (stderr %r) but %s gave rc %s stdout %r (stderr %r)" % (
                        p["name"], si, len(cs.samples), len(cs.records), t1, r1.rc, r1.out[:100], r1.err[:150], t2, r2.rc, r2.out[:100], r2.err[:150]),
                    {"level": "C", "map": E.map_json(smap), "project": project, "a": {"config": t1, "argv": r1.argv, "input_b64": E.b64(d1[:300000])},
-                    "b": {"config": t2, "argv": r2.argv, "input_b64": E.b64(d2[:300000])}})
+                    "b": {"config": t2, "argv": r2.argv, "input_b64": E.b64(d2[:300000])}, "replay": __import__("vf.replay", fromlist=["x"]).same(r1, r2)})
         S.case(key=digest([E.codes(cs), E.map_json(smap), project]), nontrivial=len(cs.records) >= 2 and len(observed) >= 8, n=len(observed))
         if si == 0 and p["i"] == 0 and first:
             S.sample({"level": "C", "samples": len(cs.samples), "records": len(cs.records), "configurations_observed": observed[:40],
